@@ -1,10 +1,102 @@
+/- Line-protocol handler of the `sync` lane (C14): canonical dumps of the REGENERATED delegation table.
+     sync.row <Owner>.<name>      one row, parameters shown by name (M-compared with the lane's own reading of sync.rs)
+     sync.table                   all rows, " | "-separated
+     sync.faithful                TableFaithful of the regenerated tables, as the driver computes it
+     sync.plan <Owner>.<name> <n> what the async API is asked to do for a call with n arguments a0 … a(n-1)
+   All helpers live in `Ldap3V.Driver.SyncD`; only `handleSync` is exported. -/
 import Ldap3V.Driver.Util
+import Ldap3V.Spec.Sync
+import Ldap3V.Gen.SyncTable
+namespace Ldap3V.Driver.SyncD
+open Ldap3V Ldap3V.Sync
+
+def showExpr (ps : List String) : Expr → String
+  | .param i => ps.getD i s!"${i}"
+  | .into e => showExpr ps e ++ ".into()"
+  | .some e => "Some(" ++ showExpr ps e ++ ")"
+  | .ref e => "&" ++ showExpr ps e
+  | .urlParse e => "Url::parse(" ++ showExpr ps e ++ ")?"
+  | .const s => s
+
+def showArgs (ps : List String) (es : List Expr) : String := ",".intercalate (es.map (showExpr ps))
+
+def showRecv : Recv → String
+  | .static => "Self"
+  | .ldap => "ldap"
+  | .stream => "stream"
+  | .streamLdap => "stream.ldap_handle()"
+
+def showRet : Ret → String
+  | .unchanged => "unchanged"
+  | .entryStream => "entry_stream"
+
+def showRow (r : SyncEntry) : String :=
+  let ps := r.params
+  match r.body with
+  | .blockOn rt recv callee es ret => s!"block_on({rt}) {showRecv recv}.{callee}({showArgs ps es}) -> {showRet ret}"
+  | .direct recv callee es => s!"direct {showRecv recv}.{callee}({showArgs ps es})"
+  | .inline recv e => s!"inline {showRecv recv}.{e}"
+  | .assign f v => s!"assign ldap.{f}={showExpr ps v}"
+  | .delegate callee es => s!"delegate Self::{callee}({showArgs ps es})"
+  | .connect fl callee es dr => s!"connect {fl} {callee}({showArgs ps es}) {if dr then "driven" else "NOT-driven"}"
+  | .unclassified w => s!"UNCLASSIFIED {w}"
+
+def showEntry (r : SyncEntry) : String :=
+  s!"{r.owner}.{r.name}({",".intercalate r.params}) = {showRow r}"
+
+def findRow (key : String) : Option SyncEntry :=
+  match key.splitOn "." with
+  | [o, n] => lookup Gen.syncTable o n
+  | _ => none
+
+def showVal : Val → String
+  | .atom s => s
+  | .into v => showVal v ++ ".into()"
+  | .some v => "Some(" ++ showVal v ++ ")"
+  | .ref v => "&" ++ showVal v
+  | .urlParse v => "Url::parse(" ++ showVal v ++ ")?"
+  | .const s => s
+  | .undef => "UNDEF"
+
+def stripInto : Val → Val
+  | .into v => stripInto v
+  | v => v
+
+/-- a behaviour that only records what it is asked (for `sync.plan`); `into` on an adapter vector is the identity -/
+def recorder : AsyncBehaviour Unit String where
+  call _ recv m args := ((), s!"await {showRecv recv}.{m}({",".intercalate ((args.map stripInto).map showVal)})", [])
+  setField _ _ _ _ := ()
+  readExpr _ recv e := ((), s!"read {showRecv recv}.{e}", [])
+  selfRef := "self"
+  stuck := "STUCK"
+  entryStreamOf r := "EntryStream{" ++ r ++ "}"
+  into_absorbed := by intros; simp [stripInto]
+
+end Ldap3V.Driver.SyncD
+
 namespace Ldap3V.Driver
-open Ldap3V
+open Ldap3V Ldap3V.Sync Ldap3V.Driver.SyncD
 
 /-- line-protocol handler for the `Sync` family of commands; `none` = not mine -/
 def handleSync (cmd arg : String) : Option String :=
   match cmd with
+  | "sync.table" => some (" | ".intercalate (Gen.syncTable.map showEntry))
+  | "sync.row" =>
+    match findRow arg with
+    | some r => some (showRow r)
+    | none => some "no-such-row"
+  | "sync.faithful" => some (toString (TableFaithful Gen.asyncInfo Gen.syncTable))
+  | "sync.plan" =>
+    match arg.splitOn " " with
+    | [key, n] =>
+      match key.splitOn ".", n.toNat? with
+      | [o, m], some k =>
+        let c : ApiCall := ⟨o, m, (List.range k).map (fun i => Val.atom s!"a{i}")⟩
+        let rs := stepSync Gen.syncTable Gen.asyncInfo recorder () c
+        let ra := stepAsync Gen.asyncInfo recorder () c
+        some s!"sync: {rs.2.1} ; async: {ra.2.1}"
+      | _, _ => some "bad-request"
+    | _ => some "bad-request"
   | _ => none
 
 end Ldap3V.Driver
